@@ -189,6 +189,7 @@ def run_world(tier, seed, scripts_only=None):
     sigs = set()
     fails = []
     samples = []
+    drift = []
     for r in results:
         for k, v in r["stats"].items():
             if k in ("max-entities", "par-max-results") or k.startswith("query-kinds-seen"):
@@ -200,6 +201,14 @@ def run_world(tier, seed, scripts_only=None):
             samples.append(r["sample"])
         seen = {}
         for (prop, line, chk, op) in r["fails"]:
+            if prop == "DRIFT":
+                stats["strict-model-drift"] += 1
+                if len(drift) < 5:
+                    drift.append("line %d of %s (op %s)" % (line, os.path.basename(r["trace"]), op))
+                continue
+            if prop == "INFO":
+                stats["info:" + chk] += 1
+                continue
             # one replay script per (trace, property): the history up to the first failure
             if prop not in seen:
                 rp = os.path.join(WORK, "replay", "%s-%s-%d.ndjson" % (prop, os.path.basename(r["trace"]).replace(".ndjson", ""), line))
@@ -211,7 +220,7 @@ def run_world(tier, seed, scripts_only=None):
                               "trace": r["trace"], "replay": seen[prop][0],
                               "profile": os.path.basename(r["trace"])[:-9]})
     out = {"tier": tier, "seed": seed, "traces": len(results), "stats": dict(stats),
-           "distinct": len(sigs), "fails": fails, "samples": samples, "wall": time.time() - t0,
+           "distinct": len(sigs), "fails": fails, "drift": drift, "samples": samples, "wall": time.time() - t0,
            "dir": d}
     # traces are large: keep only the ones with failures
     failing = {f["trace"] for f in fails}
